@@ -196,11 +196,16 @@ def gen_rule(rng, idx: int, with_funcs: bool, allow_clash: bool, host=None) -> d
             spec["name"], spec["guard"] = "", False
     elif fam == "keep":
         spec["remove"] = False
-    if fam != "asfn" and rng.random() < 0.12:
-        # one explicit version for every node of the default domain: `used_opsets` is a Python set, mixing
-        # ("", None) and ("", 18) makes `_update_opset_imports` of a fresh body depend on set iteration order
+    if fam != "asfn" and rng.random() < 0.15:
+        # explicit versions; since 630be50 `used_opsets` is iterated sorted, so mixing ("", None) with ("", 18) is
+        # deterministic: in a fresh body dict the unversioned entry records 1 first and the versioned one then clashes
         ver = rng.choice([18, 18, 17] if allow_clash else [18])
-        tn = [(op, dom, ver if dom == "" else v0, ins, nout, attrs) for op, dom, v0, ins, nout, attrs in tn]
+        if rng.random() < 0.3 and len(tn) > 1:
+            k = rng.randrange(len(tn))
+            tn = [(op, dom, ver if (dom == "" and i == k) else v0, ins, nout, attrs) for i, (op, dom, v0, ins, nout, attrs) in enumerate(tn)]
+            spec["mixed_versions"] = True
+        else:
+            tn = [(op, dom, ver if dom == "" else v0, ins, nout, attrs) for op, dom, v0, ins, nout, attrs in tn]
     spec.update(tnodes=tn, touts=touts)
     return spec
 
@@ -617,6 +622,12 @@ def main(run: core.Run) -> None:
         distribution=dict(stats),
         exhaustive=False,
     )
+    required = ["fam_reemit", "fam_swap", "fam_invol", "fam_mulone", "fam_asfn", "fam_two", "fam_multi", "fam_passthru",
+                "host_If", "host_Loop", "host_fn_Neg", "host_Two", "count_1", "count_2", "count_5", "ort_pairs"]
+    missing = [k for k in required if not stats[k]]
+    run.coverage["required_counters"] = {k: stats[k] for k in required}
+    if missing:
+        raise core.Infra("generator did not cover: " + ", ".join(missing))
     if stats["apply_cases"] and stats["count_0"] > 0.6 * stats["apply_cases"]:
         raise core.Infra("generator degenerated: >60% of cases without any application")
 
